@@ -18,9 +18,7 @@ def data_key(x: Any) -> Any:
     from xdsl.ir import Attribute
     if isinstance(x, Attribute):
         return attr_key(x)
-    if isinstance(x, bool):
-        return ("b", x)
-    if isinstance(x, int):
+    if isinstance(x, int):  # bool included: IntAttr(True) == IntAttr(1), prints the same
         return ("i", x)
     if isinstance(x, float):
         return ("f", struct.pack(">d", x).hex())
